@@ -40,7 +40,7 @@ def budget(tier):
 
 
 # ------------------------------------------------------------------ universe
-def universe(nch, kinds, slots):
+def universe(nch, kinds, slots, T0=T0, SUB=SUB):
     """list of dict(path-rel, group-rel, key)."""
     files = []
     for c in range(nch):
@@ -66,21 +66,24 @@ class Sim:
         self.base = base
         self.root = os.path.join(base, "data")
         self.case = case
-        self.files = universe(case["nch"], case["kinds"], case["slots"])
+        # (t0 = 0: recordings that begin at the epoch itself - the oldest file of every group has time key 0)
+        self.T0 = case.get("t0", T0)
+        self.SUB, self.SUB2 = (SUB, SUB2) if self.T0 else ("1970-01-01T00-00-00", "1970-01-01T00-00-10")
+        self.files = universe(case["nch"], case["kinds"], case["slots"], self.T0, self.SUB)
         os.makedirs(self.root, exist_ok=True)
         for c in range(case["nch"]):
             d = os.path.join(self.root, "ch%d" % c)
-            os.makedirs(os.path.join(d, SUB), exist_ok=True)
+            os.makedirs(os.path.join(d, self.SUB), exist_ok=True)
             self._touch(os.path.join(d, "drf_properties.h5"), 300)
             if "dmd" in case["kinds"]:
-                os.makedirs(os.path.join(d, "metadata", SUB), exist_ok=True)
+                os.makedirs(os.path.join(d, "metadata", self.SUB), exist_ok=True)
                 self._touch(os.path.join(d, "metadata", "dmd_properties.h5"), 300)
-        self.outside = os.path.join(base, "outside", "ch0", SUB, "rf@%d.000.h5" % T0)
+        self.outside = os.path.join(base, "outside", "ch0", self.SUB, "rf@%d.000.h5" % self.T0)
         os.makedirs(os.path.dirname(self.outside))
         self._touch(self.outside, 100)
         self.noise = {
             "props": os.path.join(self.root, "ch0", "drf_properties.h5"),
-            "tmp": os.path.join(self.root, "ch0", SUB, "tmp.rf@%d.000.h5" % (T0 + 9)),
+            "tmp": os.path.join(self.root, "ch0", self.SUB, "tmp.rf@%d.000.h5" % (self.T0 + 9)),
         }
         self._touch(self.noise["tmp"], 200)
         lim = case["limits"]
@@ -147,7 +150,7 @@ class Sim:
     def path(self, i):
         nf = len(self.files)
         if i >= nf:
-            return os.path.join(self.evroot, self.files[i - nf]["rel"].replace("/" + SUB + "/", "/" + SUB2 + "/"))
+            return os.path.join(self.evroot, self.files[i - nf]["rel"].replace("/" + self.SUB + "/", "/" + self.SUB2 + "/"))
         return os.path.join(self.evroot, self.files[i]["rel"])
 
     def group(self, i):
@@ -551,11 +554,14 @@ def _cases(draw, tier):
     # how the watched directory is named, and an optional time window (aware or naive datetimes; a start time only without
     # metadata groups, whose listing adds the forward-fill file that the event filter does not know)
     case["relroot"] = draw(st.sampled_from([None, None, None, "data", "./data/"]))
+    t0 = draw(st.sampled_from([T0, T0, T0, 0]))
+    if t0 != T0:
+        case["t0"] = t0
     case["cli"] = draw(st.sampled_from([0, 0, 1, 2, 3]))  # 0: constructed through the API; else through the command line
     if draw(st.integers(0, 3)) == 0:
-        keys = sorted({(T0 + s_ // 2) * 1000 + 500 * (s_ % 2) for s_ in range(slots)} | {(T0 + s_) * 1000 for s_ in range(slots)})
-        a = draw(st.sampled_from(keys)) + draw(st.sampled_from([-1, 0, 0, 1]))
-        b = draw(st.sampled_from(keys)) + draw(st.sampled_from([-1, 0, 0, 1]))
+        keys = sorted({(t0 + s_ // 2) * 1000 + 500 * (s_ % 2) for s_ in range(slots)} | {(t0 + s_) * 1000 for s_ in range(slots)})
+        a = max(0, draw(st.sampled_from(keys)) + draw(st.sampled_from([-1, 0, 0, 1])))
+        b = max(0, draw(st.sampled_from(keys)) + draw(st.sampled_from([-1, 0, 0, 1])))
         if b < a:
             a, b = b, a
         which_w = draw(st.integers(0, 2))
@@ -563,6 +569,11 @@ def _cases(draw, tier):
         end = b if which_w in (1, 2) else None
         if start is not None or end is not None:
             case["win"] = [start, end, draw(st.booleans())]
+            # with a window the listing selects subdirectories by THEIR time: the histories that park a file under another
+            # subdirectory (whose period does not contain the file's time - not a layout the format produces) are left out
+            def _plain(o):
+                return o["o"] not in ("rename_sub", "moved_late") and all(i < nfiles for i in [o.get("f", 0), o.get("t", 0)] + list(o.get("fs", [])))
+            case["ops"] = [o for o in ops if _plain(o)] or [{"o": "create", "f": 0, "size": 2048, "event": True}]
     return case
 
 
@@ -609,6 +620,18 @@ def directed_cases(tier):
             out.append({"nch": nch, "kinds": kinds, "slots": 6, "limits": lim, "ops":
                         [{"o": "create", "f": i, "size": 2048, "event": True} for i in (0, 1, 2, 3)] +
                         [{"o": "create", "f": 6, "size": 2048, "event": True}, {"o": "create", "f": 7, "size": 2048, "event": True}]})
+    # recordings that begin at the epoch: the oldest file of the group has time 0
+    for lim in ({"count": 2}, {"size": 8192}, {"duration": 1000}):
+        out.append({"nch": 1, "kinds": ["rf", "dmd"], "slots": 6, "limits": lim, "t0": 0, "ops":
+                    [{"o": "create", "f": i, "size": 2048, "event": True} for i in (0, 2, 4, 5)] + [{"o": "rescan", "kind": "existing"}] +
+                    [{"o": "create", "f": i, "size": 2048, "event": True} for i in (6, 7, 8, 9)] + [{"o": "rescan", "kind": "verify"}]})
+    # while the observer was down a tracked file that is NOT the oldest vanished and a new one appeared, at the limit: the
+    # re-scan must not delete anything (the true count never exceeded the limit)
+    for lim in ({"count": 3}, {"count": 3, "size": 3 * 2048}):
+        out.append({"nch": 1, "kinds": ["rf"], "slots": 6, "limits": lim, "ops":
+                    [{"o": "create", "f": i, "size": 2048, "event": True} for i in (0, 1, 2)] +
+                    [{"o": "unlink", "f": 2}, {"o": "create", "f": 3, "size": 2048, "event": False}, {"o": "rescan", "kind": "verify"},
+                     {"o": "unlink", "f": 1}, {"o": "create", "f": 4, "size": 2048, "event": False}, {"o": "rescan", "kind": "verify"}]})
     return out
 
 
